@@ -39,9 +39,9 @@ From Coq Require PrimFloat.
 From Shampoo Require Import Scalar Matrix Show.
 Import ListNotations.
 
-Inductive dtype : Type := BF16 | F32 | F64.
+Inductive dtype : Type := BF16 | F16 | F32 | F64.
 Definition dtype_eqb (a b : dtype) : bool :=
-  match a, b with BF16, BF16 | F32, F32 | F64, F64 => true | _, _ => false end.
+  match a, b with BF16, BF16 | F16, F16 | F32, F32 | F64, F64 => true | _, _ => false end.
 
 Inductive verr : Type := NotTwoDim | NotSquare.
 (* [OracleError]: whatever exception the foreign routine raised propagates unchanged.
@@ -110,9 +110,10 @@ Section Model.
   Definition rel_change (n : nat) (last Q : mat F) : F :=
     fdiv Op (frob Op n (msub Op last Q)) (frob Op n last).
 
-  (* error > tolerance, error = inf before the first iteration *)
+  (* error > tolerance; before the first iteration error = +inf, and [inf > tolerance] holds unless the tolerance is
+     +inf or NaN (then no iteration is made at all): true for every finite tolerance and for -inf *)
   Definition keep_going (err : option F) (tol : F) : bool :=
-    match err with None => true | Some e => fltb Op tol e end.
+    match err with None => ffinite Op tol || fltb Op tol (f0 Op) | Some e => fltb Op tol e end.
 
   Inductive loop_out : Type := LDone (Q : mat F) | LFails | LMissing.
 
